@@ -287,6 +287,11 @@ func (j *c03Judge) apply(st *c03State, o c03Op) bool {
 		if o.kind == "RollAxis" && o.safe {
 			j.oldNonDefault = !gen.ShapeEq(d.Strides(), defaultStrides([]int(d.Shape()), false)) || d.DataOrder().IsColMajor()
 		}
+		// a storage window longer than the tensor (a copy of a stepped view keeps the view's window) is the same
+		// situation for the mover: storage positions that do not decompose into coordinates by the default strides
+		if es := int(d.Dtype().Size()); es > 0 && int(d.MemSize())/es > d.Size() {
+			j.oldNonDefault = true
+		}
 	}
 	lazyT := func(p []int, call func() error) bool {
 		before := st.cur
@@ -617,10 +622,20 @@ func c03Seqs(c *core.Ctx, src string, t reflect.Type, shape []int) {
 		if st != nil {
 			jc := &c03Judge{c: c, src: src, tn: j.tn, shape: shape, corrupt: true}
 			v := append([]interface{}(nil), st.cur.V...)
-			v[0], v[len(v)-1] = v[len(v)-1], v[0]
-			st.cur = &model.ND{T: t, Shape: st.cur.Shape, V: v}
-			if jc.content(st, "control", "control") {
-				c.Control(false)
+			// exchange two elements that differ (bool tensors of odd length start and end with the same value)
+			k := -1
+			for i := len(v) - 1; i > 0; i-- {
+				if !model.Same(v[0], v[i]) {
+					k = i
+					break
+				}
+			}
+			if k > 0 {
+				v[0], v[k] = v[k], v[0]
+				st.cur = &model.ND{T: t, Shape: st.cur.Shape, V: v}
+				if jc.content(st, "control", "control") {
+					c.Control(false)
+				}
 			}
 		}
 	}
